@@ -146,6 +146,93 @@ fn require_observed(rep: &mut Report, keys: &[&str]) {
     }
 }
 
+
+/// All 16 channels pending at once (in several channel orders), served in another order, twice;
+/// every step judged by the timeout monitor and the history observer. Scanner-level summaries
+/// of per-channel state (counts, masks) saturate or wrap exactly here.
+pub fn all_channels_pending(cfg: &Cfg, rep: &mut Report) {
+    let mut rng = Rng::derive(cfg.seed, 0xA11_16);
+    let asc: Vec<u8> = (0..16).collect();
+    let mut orders: Vec<Vec<u8>> = vec![asc.clone(), (0..16).rev().collect()];
+    for _ in 0..cfg.size(1, 3, 16) {
+        let mut o = asc.clone();
+        for i in (1..16).rev() {
+            let j = rng.below(i as u64 + 1) as usize;
+            o.swap(i, j);
+        }
+        orders.push(o);
+    }
+    let mut scenarios = 0u64;
+    for &timeout in &[T2, 0, T_INF, ONE_S + 1] {
+        let step = if timeout == T_INF || timeout == 0 { TICK } else { timeout };
+        for o1 in &orders {
+            for o2 in &orders {
+                for variant in 0..3u8 {
+                    let mut mon = PollMon::new(timeout);
+                    let mut hist: Vec<Ev> = Vec::new();
+                    macro_rules! ap {
+                        ($e:expr) => {{
+                            let e: Ev = $e;
+                            hist.push(e);
+                            let h = &hist;
+                            mon.apply(&e, rep, &|| h.iter().map(|e| e.render()).collect())
+                        }};
+                    }
+                    for &c in o1 {
+                        ap!(Ev::cc(c, 101, c));
+                        ap!(Ev::cc(c, 100, 15 - c));
+                        if variant == 2 {
+                            ap!(Ev::cc(c, 38, c + 1));
+                        }
+                        ap!(Ev::cc(c, 6, 100 + c));
+                        ap!(Ev::Tick(1));
+                    }
+                    if variant != 1 {
+                        ap!(Ev::Tick(step));
+                    }
+                    let mut reports = 0u32;
+                    for &c in o2 {
+                        if ap!(Ev::Poll(c))[0].is_some() {
+                            reports += 1;
+                        }
+                        if variant == 1 {
+                            ap!(Ev::cc(c, 38, c));
+                        }
+                    }
+                    if variant == 0 && timeout != T_INF && reports != 16 {
+                        let h = &hist;
+                        crate::viol!(
+                            rep,
+                            "C13:all-channels-pending:late-polls-report-every-channel",
+                            format!("16 channels had a lone MSB pending past the timeout; polling all of them reported only {} messages", reports),
+                            history_json("polling", Some(timeout), &|| h.iter().map(|e| e.render()).collect(), json!(16), json!(reports))
+                        );
+                    }
+                    for &c in o1 {
+                        ap!(Ev::cc(c, 6, 50 + c));
+                    }
+                    ap!(Ev::Tick(step.saturating_mul(3)));
+                    for &c in o2 {
+                        ap!(Ev::Poll(c));
+                        ap!(Ev::Poll(c));
+                    }
+                    let last = *o2.last().unwrap();
+                    ap!(Ev::cc(last, 6, 7));
+                    ap!(Ev::Tick(step));
+                    ap!(Ev::Poll(last));
+                    scenarios += 1;
+                    rep.evaluations += hist.len() as u64;
+                }
+            }
+            if rep.own_violations(&cfg.prop) >= 20 {
+                break;
+            }
+        }
+    }
+    rep.count("all_16_channels_pending_scenarios", scenarios);
+    rep.rule("all 16 channels pending at once in ascending, descending and seeded channel orders, polled in another order, twice (timeouts 2 ticks, 0, MAX, 1 s + 1 ns)");
+}
+
 pub fn run_c14(cfg: &Cfg, rep: &mut Report) {
     rep.rule("fixpoint exploration of (real polling scanner x history observer) over number bytes {98,99,100,101}, controllers 6, 38, 96, 97 x abstract values, non-contributing representatives, poll, tick (1000 ns), reset; timeouts {0, 2 ticks, infinite}; one channel (quick: 2 values, thorough: 3) and a two-channel product; plus seeded random histories over the full alphabet incl. malformed and mixed registered/non-registered traffic on 1-16 channels with polls and time steps; distinct_nontrivial = explorer states + random histories with at least one report ; explorer runs rotate their abstract values and channels (fixed pair {0,1}, seeded pairs, spec-dictionary pairs such as {0,6}, {0,3}; thorough/release: every 7-bit value) ; repetition (pumping) workloads repeat every cycle of one or two symbols and every documented unit form 300x (unit forms and single symbols 66 000x) from several start states, applying all tail symbols to a copy after each iteration ; a third of the random histories draws number bytes, values and channels from the spec dictionary ; polls right after clock steps just past 2^32 ns, 1 s, 2^32 us and 1 h (compound explorer symbols, templates, repetition cycles, random histories); timeouts from 0/1 ns to one year and durations of 2^64 ns and more (oracle: never); every feed also as StructuredShortMessage and as a foreign implementor on copies of the prior state (results and states must agree); the time-shifted feed twin (P5) also compares a very late poll");
     let v2 = [0u8, 1];
@@ -191,6 +278,7 @@ pub fn run_c14(cfg: &Cfg, rep: &mut Report) {
     }
     let total = cfg.size(3_000, 10_000_000, 200_000_000);
     random_poll_histories(cfg, rep, total, 0xC14_00, false);
+    all_channels_pending(cfg, rep);
     rep.set_exhaustive(false);
     rep.sample(json!({"history":["B0 63 00","B0 62 01","B0 06 01","B0 60 00"],"timeout_ns":2000,"expected":"second-to-last: nothing; last feed returns [7-bit data entry 1, increment 0]"}));
     if !cfg.as_c18 {
@@ -487,6 +575,7 @@ pub fn run_c13(cfg: &Cfg, rep: &mut Report) {
         pump_polling(cfg, rep, T_INF, 6);
     }
     random_poll_histories(cfg, rep, cfg.size(3_000, 8_000_000, 150_000_000), 0xC13_00, true);
+    all_channels_pending(cfg, rep);
     metamorphic(cfg, rep, cfg.size(1_000, 2_000_000, 40_000_000));
     rep.set_exhaustive(false);
     rep.sample(json!({"template":["x","y","B5 26 21","tick T","poll 5 -> None","B5 06 2C -> nothing","tick T","poll 5 -> 7-bit 44"],"meaning":"unpaired LSB dropped by the first poll after the timeout"}));
